@@ -270,7 +270,7 @@ func TestVerifC05Decode(t *testing.T) {
 	c := edwards.Ed25519Curve
 	vlib.Check(t, vlib.N(3000, 30000), func(t *rapid.T) {
 		var b []byte
-		kind := rapid.SampledFrom([]string{"valid", "y-random", "y>=p", "x=0-sign", "small-order"}).Draw(t, "kind")
+		kind := rapid.SampledFrom([]string{"valid", "y-random", "y>=p", "x=0-sign", "small-order", "y-near-p", "y=2^k-1"}).Draw(t, "kind")
 		switch kind {
 		case "valid":
 			k := big.NewInt(int64(rapid.IntRange(0, 1<<30).Draw(t, "k")))
@@ -289,6 +289,13 @@ func TestVerifC05Decode(t *testing.T) {
 		case "small-order":
 			T := c.SmallOrderPoints()
 			b = c.Encode(T[rapid.IntRange(0, 7).Draw(t, "i")])
+		case "y-near-p":
+			y := new(big.Int).Sub(c.P, big.NewInt(int64(rapid.IntRange(1, 64).Draw(t, "d"))))
+			b = c.EncodeRaw(y, uint(rapid.IntRange(0, 1).Draw(t, "sign")))
+		case "y=2^k-1":
+			y := new(big.Int).Lsh(big.NewInt(1), uint(rapid.IntRange(1, 255).Draw(t, "k2")))
+			y.Sub(y, big.NewInt(int64(rapid.IntRange(1, 3).Draw(t, "d2"))))
+			b = c.EncodeRaw(y, uint(rapid.IntRange(0, 1).Draw(t, "sign")))
 		}
 		vlib.Eval(sub)
 		var P pointR1
